@@ -1,10 +1,287 @@
 (* C06 - similarity measures equal their definitions in every representation.
-   Statements only; proofs are in Proofs/Metrics*.v.  Model: Model/Metrics.v (M4). *)
+   Statements only; proofs are in Proofs/Metrics*.v.  Model: Model/Metrics.v (M4), exact rationals.
+   Reading guide:
+     vec = list Q (dense vector);  row = list (Z * Q) (a CSR row as stored: any order, explicit zeros, repeated columns);
+     expand n r = the dense vector of a row (toarray);  fp_dense a = the dense vector of a fingerprint (to_vector);
+     rooted values (cosine, Pearson) num/sqrt(den2) are compared through their signed square rsq = num*|num|/den2, a
+     rational: t |-> t|t| is strictly increasing, so equality / order of signed squares is equality / order of the values;
+     nonneg / binary / allzero : Forall (0 <= .) / (. == 0 \/ . == 1) / (. == 0);  in_range n r: columns in [0, n);
+     row_nonneg r: stored values >= 0;  wf_fp a: indices strictly increasing and < bits, counts keyed by the indices, >= 0;
+     no_stored_zero a: no count stored as 0;  value_eqv: == on rationals, rsq-equality on rooted values. *)
 From Coq Require Import QArith Qabs Qminmax.
-From E3FP Require Import Base.Prelude Base.ZSet Model.Fprint Model.Metrics Proofs.Metrics.
-Open Scope Z_scope.
+From E3FP Require Import Base.Prelude Base.ZSet Model.Fprint Model.Metrics.
+From E3FP Require Import Proofs.MetricsBase Proofs.MetricsDefs Proofs.MetricsDense Proofs.MetricsSparse Proofs.MetricsFp Proofs.Metrics.
+Open Scope Q_scope.
+
+(* the sums of the model (kept in lowest terms for evaluation) are plain sums *)
+Theorem qsumr_is_sum : forall l, qsumr l == fold_right Qplus 0 l.
+Proof. exact qsumr_qsum. Qed.
+Print Assumptions qsumr_is_sum.
+
+(* ------------------------------------------------------------------ consequences of the definitions *)
+Theorem tanimoto_symmetric : forall x y, tanimoto_def x y == tanimoto_def y x.
+Proof. exact tanimoto_symmetric. Qed.
+Print Assumptions tanimoto_symmetric.
+
+Theorem dice_symmetric : forall x y, dice_def x y == dice_def y x.
+Proof. exact dice_symmetric. Qed.
+Print Assumptions dice_symmetric.
+
+Theorem cosine_symmetric : forall x y, rsq (cosine_def x y) == rsq (cosine_def y x).
+Proof. exact cosine_symmetric. Qed.
+Print Assumptions cosine_symmetric.
+
+Theorem pearson_symmetric : forall x y, rsq (pearson_def x y) == rsq (pearson_def y x).
+Proof. exact pearson_symmetric. Qed.
+Print Assumptions pearson_symmetric.
+
+Theorem soergel_symmetric : forall x y, soergel_def x y == soergel_def y x.
+Proof. exact soergel_symmetric. Qed.
+Print Assumptions soergel_symmetric.
+
+(* a non-empty (Pearson: non-constant) vector has similarity 1 to itself *)
+Theorem tanimoto_self_one : forall x, (exists a, In a x /\ ~ a == 0) -> tanimoto_def x x == 1.
+Proof. exact tanimoto_self_one. Qed.
+Print Assumptions tanimoto_self_one.
+
+Theorem dice_self_one : forall x, (exists a, In a x /\ ~ a == 0) -> dice_def x x == 1.
+Proof. exact dice_self_one. Qed.
+Print Assumptions dice_self_one.
+
+Theorem cosine_self_one : forall x, (exists a, In a x /\ ~ a == 0) -> rsq (cosine_def x x) == 1.
+Proof. exact cosine_self_one. Qed.
+Print Assumptions cosine_self_one.
+
+Theorem pearson_self_one : forall x, (exists a b, In a x /\ In b x /\ ~ a == b) -> rsq (pearson_def x x) == 1.
+Proof. exact pearson_self_one. Qed.
+Print Assumptions pearson_self_one.
+
+Theorem soergel_self_one : forall x, nonneg x -> (exists a, In a x /\ ~ a == 0) -> soergel_def x x == 1.
+Proof. exact soergel_self_one. Qed.
+Print Assumptions soergel_self_one.
+
+(* the binary measures and Soergel lie in [0, 1] *)
+Theorem tanimoto_range_01 : forall x y, 0 <= tanimoto_def x y <= 1.
+Proof. exact tanimoto_range. Qed.
+Print Assumptions tanimoto_range_01.
+
+Theorem dice_range_01 : forall x y, length x = length y -> 0 <= dice_def x y <= 1.
+Proof. exact dice_range. Qed.
+Print Assumptions dice_range_01.
+
+Theorem soergel_range_01 : forall x y, nonneg x -> nonneg y -> 0 <= soergel_def x y <= 1.
+Proof. exact soergel_range. Qed.
+Print Assumptions soergel_range_01.
+
+(* Cauchy-Schwarz over lists, and its consequences in squared form *)
+Theorem cauchy_schwarz : forall x y, dot x y * dot x y <= dot x x * dot y y.
+Proof. exact cauchy_schwarz. Qed.
+Print Assumptions cauchy_schwarz.
+
+Theorem cosine_sq_le_1 : forall x y, -1 <= rsq (cosine_def x y) <= 1.
+Proof. exact cosine_sq_le_1. Qed.
+Print Assumptions cosine_sq_le_1.
+
+Theorem pearson_sq_le_1 : forall x y, -1 <= rsq (pearson_def x y) <= 1.
+Proof. exact pearson_sq_le_1. Qed.
+Print Assumptions pearson_sq_le_1.
+
+Theorem cosine_nonneg : forall x y, nonneg x -> nonneg y -> 0 <= rsq (cosine_def x y).
+Proof. exact cosine_nonneg. Qed.
+Print Assumptions cosine_nonneg.
+
+Theorem soergel_binary_eq_tanimoto : forall x y, binary x -> binary y -> soergel_def x y == tanimoto_def x y.
+Proof. exact soergel_binary_eq_tanimoto. Qed.
+Print Assumptions soergel_binary_eq_tanimoto.
+
+(* an all-zero vector scores 0 (never NaN, never an error), for all five *)
+Theorem tanimoto_zero_vector_zero : forall x y, allzero x -> tanimoto_def x y == 0.
+Proof. exact tanimoto_zero. Qed.
+Print Assumptions tanimoto_zero_vector_zero.
+
+Theorem dice_zero_vector_zero : forall x y, allzero x -> dice_def x y == 0.
+Proof. exact dice_zero. Qed.
+Print Assumptions dice_zero_vector_zero.
+
+Theorem cosine_zero_vector_zero : forall x y, allzero x -> rsq (cosine_def x y) == 0.
+Proof. exact cosine_zero. Qed.
+Print Assumptions cosine_zero_vector_zero.
+
+Theorem pearson_zero_vector_zero : forall x y, allzero x -> rsq (pearson_def x y) == 0.
+Proof. exact pearson_zero. Qed.
+Print Assumptions pearson_zero_vector_zero.
+
+Theorem soergel_zero_vector_zero : forall x y, length x = length y -> allzero x -> nonneg y -> soergel_def x y == 0.
+Proof. exact soergel_zero. Qed.
+Print Assumptions soergel_zero_vector_zero.
+
+(* ------------------------------------------------------------------ dense-array paths = definitions *)
+(* array_metrics.tanimoto/dice: "Data must be binary. This is not checked." - hence the hypothesis `binary`
+   (see arr_tanimoto_nonbinary_outside_contract below) *)
+Theorem arr_tanimoto_eq_def : forall x y, length x = length y -> binary x -> binary y ->
+  arr_tanimoto x y == tanimoto_def x y.
+Proof. exact arr_tanimoto_eq_def. Qed.
+Print Assumptions arr_tanimoto_eq_def.
+
+Theorem arr_dice_eq_def : forall x y, length x = length y -> binary x -> binary y -> arr_dice x y == dice_def x y.
+Proof. exact arr_dice_eq_def. Qed.
+Print Assumptions arr_dice_eq_def.
+
+Theorem arr_cosine_eq_def : forall x y, rsq (arr_cosine x y) == rsq (cosine_def x y).
+Proof. exact arr_cosine_eq_def. Qed.
+Print Assumptions arr_cosine_eq_def.
+
+Theorem arr_pearson_eq_def : forall x y, length x = length y -> rsq (arr_pearson x y) == rsq (pearson_def x y).
+Proof. exact arr_pearson_eq_def. Qed.
+Print Assumptions arr_pearson_eq_def.
+
+Theorem arr_soergel_eq_def : forall x y, arr_soergel x y == soergel_def x y.
+Proof. exact arr_soergel_eq_def. Qed.
+Print Assumptions arr_soergel_eq_def.
+
+(* ------------------------------------------------------------------ CSR paths = definitions on the expansions *)
+Theorem sp_tanimoto_eq_def : forall n r s, (0 <= n)%Z -> in_range n r -> in_range n s -> row_binary n r -> row_binary n s ->
+  sp_tanimoto r s == tanimoto_def (expand n r) (expand n s).
+Proof. exact sp_tanimoto_eq_def. Qed.
+Print Assumptions sp_tanimoto_eq_def.
+
+Theorem sp_dice_eq_def : forall n r s, (0 <= n)%Z -> in_range n r -> in_range n s -> row_binary n r -> row_binary n s ->
+  sp_dice r s == dice_def (expand n r) (expand n s).
+Proof. exact sp_dice_eq_def. Qed.
+Print Assumptions sp_dice_eq_def.
+
+Theorem sp_cosine_eq_def : forall n r s, in_range n r -> in_range n s ->
+  rsq (sp_cosine r s) == rsq (cosine_def (expand n r) (expand n s)).
+Proof. exact sp_cosine_eq_def. Qed.
+Print Assumptions sp_cosine_eq_def.
+
+Theorem sp_pearson_eq_def : forall n r s, (0 <= n)%Z -> in_range n r -> in_range n s ->
+  rsq (sp_pearson n r s) == rsq (pearson_def (expand n r) (expand n s)).
+Proof. exact sp_pearson_eq_def. Qed.
+Print Assumptions sp_pearson_eq_def.
+
+(* the merge loop with its two tail loops and empty-row short-cuts, after canonicalisation: rows stored in ANY order,
+   with explicit zeros and repeated column indices, non-negative stored values *)
+Theorem sparse_soergel_eq_def : forall n rx ry,
+  (0 <= n)%Z -> in_range n rx -> in_range n ry -> row_nonneg rx -> row_nonneg ry ->
+  sp_soergel rx ry == soergel_def (expand n rx) (expand n ry).
+Proof. exact sp_soergel_eq_def. Qed.
+Print Assumptions sparse_soergel_eq_def.
+
+(* the kernel itself on strictly sorted rows: sums of |x-y| and max(x,y) in terms of row sums and common minima *)
+Theorem sparse_soergel_sorted : forall rx ry sad smax,
+  rsorted rx -> rsorted ry -> row_nonneg rx -> row_nonneg ry ->
+  fst (smerge rx ry sad smax) == sad + (rsum rx + rsum ry - 2 * rmin rx ry) /\
+  snd (smerge rx ry sad smax) == smax + (rsum rx + rsum ry - rmin rx ry).
+Proof. exact (fun rx ry sad smax => smerge_spec rx ry sad smax). Qed.
+Print Assumptions sparse_soergel_sorted.
+
+(* ------------------------------------------------------------------ fingerprint-pair paths = definitions *)
+(* _partial: holds for fingerprints without a stored zero count ... *)
+Theorem fp_tanimoto_eq_def_partial : forall a b, wf_fp a -> wf_fp b -> no_stored_zero a -> no_stored_zero b ->
+  (0 <= fbits a)%Z -> fbits a = fbits b -> fp_tanimoto a b == tanimoto_def (fp_dense a) (fp_dense b).
+Proof. exact fp_tanimoto_eq_def. Qed.
+Print Assumptions fp_tanimoto_eq_def_partial.
+
+Theorem fp_dice_eq_def_partial : forall a b, wf_fp a -> wf_fp b -> no_stored_zero a -> no_stored_zero b ->
+  fbits a = fbits b -> fp_dice a b == dice_def (fp_dense a) (fp_dense b).
+Proof. exact fp_dice_eq_def. Qed.
+Print Assumptions fp_dice_eq_def_partial.
+
+(* ... _refuted with one (known finding fp-tanimoto-dice-explicit-zero-count): z = d - d is an all-zero fingerprint and
+   scores 1 against d, while the definition and the fingerprint-vs-database form give 0 *)
+Theorem fp_tanimoto_explicit_zero_refuted :
+  exists a b, wf_fp a /\ wf_fp b /\ fbits a = fbits b /\ allzero (fp_dense a) /\
+              fp_tanimoto a b == 1 /\ tanimoto_def (fp_dense a) (fp_dense b) == 0 /\
+              (exists v, dispatch MTanimoto (IFp a) (Some (IDb (own_db b))) = Ok (Matrix [[VQ v]]) /\ v == 0).
+Proof. exact fp_tanimoto_explicit_zero_refuted. Qed.
+Print Assumptions fp_tanimoto_explicit_zero_refuted.
+
+Theorem fp_dice_explicit_zero_refuted :
+  exists a b, wf_fp a /\ wf_fp b /\ fbits a = fbits b /\ allzero (fp_dense a) /\
+              fp_dice a b == 1 /\ dice_def (fp_dense a) (fp_dense b) == 0.
+Proof. exact fp_dice_explicit_zero_refuted. Qed.
+Print Assumptions fp_dice_explicit_zero_refuted.
+
+Theorem fp_cosine_eq_def : forall a b, wf_fp a -> wf_fp b -> fbits a = fbits b ->
+  rsq (fp_cosine a b) == rsq (cosine_def (fp_dense a) (fp_dense b)).
+Proof. exact fp_cosine_eq_def. Qed.
+Print Assumptions fp_cosine_eq_def.
+
+(* E[xy] - E[x]E[y] over std*std (population 1/bits) equals the centred form *)
+Theorem fp_pearson_eq_def : forall a b, wf_fp a -> wf_fp b -> (0 < fbits a)%Z -> fbits a = fbits b ->
+  rsq (fp_pearson a b) == rsq (pearson_def (fp_dense a) (fp_dense b)).
+Proof. exact fp_pearson_eq_def. Qed.
+Print Assumptions fp_pearson_eq_def.
+
+(* the 1/(n-1) of the array form and the 1/bits of the fingerprint form cancel *)
+Theorem pearson_array_eq_fp : forall a b, wf_fp a -> wf_fp b -> (0 < fbits a)%Z -> fbits a = fbits b ->
+  rsq (arr_pearson (fp_dense a) (fp_dense b)) == rsq (fp_pearson a b).
+Proof. exact pearson_array_eq_fp. Qed.
+Print Assumptions pearson_array_eq_fp.
+
+(* bit/bit: Tanimoto; otherwise the counts of both (a bit fingerprint counts 1 per index) *)
+Theorem fp_soergel_eq_def : forall a b, wf_fp a -> wf_fp b -> (0 <= fbits a)%Z -> fbits a = fbits b ->
+  fp_soergel a b == soergel_def (fp_dense a) (fp_dense b).
+Proof. exact fp_soergel_eq_def. Qed.
+Print Assumptions fp_soergel_eq_def.
+
+(* a note, not an alarm: outside the documented contract of array_metrics.tanimoto/dice *)
+Theorem arr_tanimoto_nonbinary_outside_contract :
+  arr_tanimoto [inject_Z 2; 0; inject_Z 3; 0] [inject_Z 2; 1; inject_Z 3; 0] == - (13 # 2) /\
+  tanimoto_def [inject_Z 2; 0; inject_Z 3; 0] [inject_Z 2; 1; inject_Z 3; 0] == 2 # 3.
+Proof. exact arr_tanimoto_nonbinary_note. Qed.
+Print Assumptions arr_tanimoto_nonbinary_outside_contract.
+
+(* ------------------------------------------------------------------ calling conventions *)
+Theorem width_mismatch_rejected : forall m A B x y,
+  item_bits A = Some x -> item_bits B = Some y -> x <> y -> dispatch m A (Some B) = Raises EBits.
+Proof. exact bits_mismatch_dispatch. Qed.
+Print Assumptions width_mismatch_rejected.
 
 Theorem width_mismatch_rejected_array : forall m X Y,
   arr_width X <> arr_width Y -> array_metric m X (Some Y) = Raises EValue.
 Proof. exact width_mismatch_array. Qed.
 Print Assumptions width_mismatch_rejected_array.
+
+Theorem non_fingerprint_rejected : forall m A,
+  dispatch m IOther (Some A) = Raises EType /\ dispatch m A (Some IOther) = Raises EType.
+Proof. exact (fun m A => conj (non_fingerprint_dispatch_l m A) (non_fingerprint_dispatch_r m A)). Qed.
+Print Assumptions non_fingerprint_rejected.
+
+(* the four calling forms on two fingerprints (own_db x = the one-row database holding x) reach paths that all return
+   the definition on the fingerprints' dense vectors; Tanimoto/Dice: no stored zero count (only the (fp,fp) form needs it) *)
+Theorem dispatch_consistent : forall m a b,
+  wf_fp a -> wf_fp b -> (0 < fbits a)%Z -> fbits a = fbits b ->
+  (cast_type m <> None -> no_stored_zero a /\ no_stored_zero b) ->
+  let d := def_metric m (fp_dense a) (fp_dense b) in
+  (exists v, dispatch m (IFp a) (Some (IFp b)) = Ok (Scalar v) /\ value_eqv v d) /\
+  (exists v, dispatch m (IFp a) (Some (IDb (own_db b))) = Ok (Matrix [[v]]) /\ value_eqv v d) /\
+  (exists v, dispatch m (IDb (own_db a)) (Some (IFp b)) = Ok (Matrix [[v]]) /\ value_eqv v d) /\
+  (exists v, dispatch m (IDb (own_db a)) (Some (IDb (own_db b))) = Ok (Matrix [[v]]) /\ value_eqv v d).
+Proof. exact dispatch_consistent. Qed.
+Print Assumptions dispatch_consistent.
+
+(* ------------------------------------------------------------------ the hypotheses are satisfiable *)
+Example ex_fp_a : fp := mkfp KCount 16 (Some 5%Z) [1%Z; 4%Z; 9%Z] [(1%Z, inject_Z 2); (4%Z, 1); (9%Z, inject_Z 7)] None.
+Example ex_fp_b : fp := mkfp KBit 16 None [4%Z; 9%Z; 15%Z] [] None.
+
+Example ex_hypotheses : wf_fp ex_fp_a /\ wf_fp ex_fp_b /\ no_stored_zero ex_fp_a /\ no_stored_zero ex_fp_b /\
+                        (0 < fbits ex_fp_a)%Z /\ fbits ex_fp_a = fbits ex_fp_b.
+Proof.
+  unfold wf_fp, no_stored_zero, ssorted. simpl.
+  repeat split; repeat constructor; try lia; try reflexivity; simpl; unfold Qle, Qeq; simpl; lia.
+Qed.
+
+(* a count fingerprint against a bit fingerprint through the database form: Soergel = 1 - (2+6+1)/(2+1+7+1) = 2/11 *)
+Example ex_dispatch_value :
+  exists v, dispatch MSoergel (IFp ex_fp_a) (Some (IDb (own_db ex_fp_b))) = Ok (Matrix [[VQ v]]) /\ v == 2 # 11.
+Proof. eexists. split; vm_compute; reflexivity. Qed.
+
+(* an unsorted row with a repeated column and an explicit zero satisfies the hypotheses of sparse_soergel_eq_def *)
+Example ex_noncanonical_row :
+  let r := [(3%Z, inject_Z 2); (1%Z, 0); (3%Z, 1); (0%Z, inject_Z 5)] in
+  in_range 4 r /\ row_nonneg r /\ sp_soergel r [(0%Z, inject_Z 5); (3%Z, inject_Z 3)] == 1.
+Proof.
+  unfold in_range, row_nonneg. simpl. repeat split; repeat constructor; try lia; simpl; unfold Qle; simpl; lia.
+Qed.
